@@ -126,7 +126,7 @@ def f_text(f, names, minimal=False) -> str:
     return sep.join(parts)
 
 
-def f_pysmt(f, names):
+def f_pysmt(f, names, _parent=None):
     from pysmt.shortcuts import FALSE, TRUE, And, Not, Or, Symbol
 
     t = f[0]
@@ -138,20 +138,23 @@ def f_pysmt(f, names):
         return Symbol(names[f[1]])
     if t == "!":
         return Not(f_pysmt(f[1], names))
-    # a programmatically built formula may use n-ary connectives (the parser only builds binary ones): for about half of the nested
-    # same-operator formulas (decided by a process-independent checksum of the formula) the chain is flattened into one n-ary node
-    args = [f[1], f[2]]
-    if (f[1][0] == t or f[2][0] == t) and zlib.crc32(repr(f).encode()) % 2 == 0:
-        args = []
+    # a programmatically built formula may use n-ary connectives (the parser only builds binary ones): about half of the maximal
+    # same-operator chains of 3-4 members (decided by a process-independent checksum of the formula) are flattened into one n-ary
+    # node; longer chains stay nested, their depth is what some inputs are about
+    if _parent != t and (f[1][0] == t or f[2][0] == t) and zlib.crc32(repr(f).encode()) % 2 == 0:
+        flat = []
         stack = [f[2], f[1]]
         while stack:
             x = stack.pop()
             if x[0] == t:
                 stack += [x[2], x[1]]
             else:
-                args.append(x)
-    sub = [f_pysmt(x, names) for x in args]
-    return And(*sub) if t == "&" else Or(*sub)
+                flat.append(x)
+        if len(flat) <= 4:
+            sub = [f_pysmt(x, names) for x in flat]
+            return And(*sub) if t == "&" else Or(*sub)
+    l, r = f_pysmt(f[1], names, t), f_pysmt(f[2], names, t)
+    return And(l, r) if t == "&" else Or(l, r)
 
 
 NAME_STYLES = [
@@ -339,6 +342,9 @@ def gen_deep_pairs(rng: random.Random, n: int, pairs=2, conds=()):
         inner = [a for a in dict.fromkeys(rng.sample(ante_atoms, min(2, len(ante_atoms)))) if a != xa]
         rest = [a for a in atoms if a not in inner and a != xa]
         order = inner + rest
+        while len(order) < 6 and rest:
+            # six literals at least (tree height >= 5 below the outermost connective): atoms may repeat at the outer positions
+            order.append(rng.choice(rest))
         chain, _ = deep_chain(rng, order[:max(6, len(order) - rng.randint(0, 1))], pos=0.8)
         out.append((x, chain))
         out.append((x, flip_innermost(chain, rng.choice([1, 1, 2]))))
